@@ -67,3 +67,42 @@ theorem scalar_eq_s_component (times vals : List ℝ) (pol : V3) (tof : ℝ) (e 
 
 end PropLemmas
 end
+
+noncomputable section
+namespace PropLemmas
+open PyrexR
+
+/-- equal indices on both sides of a boundary (`n₁ = n₂ ≠ 0`, incidence from inside: `cos θ ≥ 0`): nothing is
+reflected, both amplitude reflection coefficients vanish -/
+theorem reflect_equal_indices (n θ : ℝ) (hn : n ≠ 0) (hc : 0 ≤ Real.cos θ) :
+    fresnelReflect n n θ = ((0, 0), (0, 0)) := by
+  have h1 : n / n * Real.sin θ = Real.sin θ := by rw [div_self hn, one_mul]
+  have h2 : Real.sqrt (1 - Real.sin θ * Real.sin θ) = Real.cos θ := by
+    have : 1 - Real.sin θ * Real.sin θ = Real.cos θ ^ 2 := by
+      have := Real.sin_sq_add_cos_sq θ; nlinarith
+    rw [this, Real.sqrt_sq hc]
+  unfold fresnelReflect cosTransmitted
+  simp only [Rcos, Rsin, Rsqrt, h1, if_pos (Real.sin_le_one θ), h2]
+  simp [cdiv, csub, cadd, cofReal, cscale]
+
+/-- grazing incidence (`cos θ = 0`) below the critical angle: total reflection with a sign flip, `|r| = 1` -/
+theorem reflect_grazing_unit (n1 n2 θ : ℝ) (h1 : 0 < n1) (h2 : 0 < n2) (hc : Real.cos θ = 0)
+    (hs : n1 / n2 * Real.sin θ < 1) (hs' : -1 < n1 / n2 * Real.sin θ) :
+    cnormSq (fresnelReflect n1 n2 θ).1 = 1 ∧ cnormSq (fresnelReflect n1 n2 θ).2 = 1 := by
+  have hpos : 0 < 1 - n1 / n2 * Real.sin θ * (n1 / n2 * Real.sin θ) := by nlinarith
+  have hq : 0 < Real.sqrt (1 - n1 / n2 * Real.sin θ * (n1 / n2 * Real.sin θ)) := Real.sqrt_pos.mpr hpos
+  unfold fresnelReflect cosTransmitted
+  simp only [Rcos, Rsin, Rsqrt, hc, if_pos hs.le, mul_zero]
+  set q := Real.sqrt (1 - n1 / n2 * Real.sin θ * (n1 / n2 * Real.sin θ)) with hqdef
+  constructor
+  · simp only [cnormSq, cdiv, csub, cadd, cofReal, cscale]
+    have : n2 * q ≠ 0 := by positivity
+    field_simp
+    ring
+  · simp only [cnormSq, cdiv, csub, cadd, cofReal, cscale]
+    have : n1 * q ≠ 0 := by positivity
+    field_simp
+    ring
+
+end PropLemmas
+end
